@@ -49,7 +49,7 @@ pub fn refreshable(l: &LinkOcc, dir: &str, lib: &LibView) -> Option<String> {
     lib.title(&key).cloned()
 }
 
-fn masked_words(a: &Atom, scan: &Scan, mask: &dyn Fn(&LinkOcc) -> bool) -> Vec<String> {
+pub fn masked_words(a: &Atom, scan: &Scan, mask: &dyn Fn(&LinkOcc) -> bool) -> Vec<String> {
     let chars: Vec<char> = a.text.chars().collect();
     let mut out = String::new();
     let mut i = 0;
